@@ -195,14 +195,8 @@ func c32Diag(got uint64, ref c32RefDigest, self string) string {
 	}
 	add("imports", got == ref.Imports)
 	add("extrinsic-count", got == ref.ExtrCount)
-	switch {
-	case got == ref.ExtrSize:
-		add("extrinsic-size", true)
-	case got == ref.ExtrSize&0xFFFFFFFF:
-		add("extrinsic-size-mod-2^32", true)
-	case got == ref.ExtrSize&0xFFFF:
-		add("extrinsic-size-mod-2^16", true)
-	}
+	// the sum of the extrinsic lengths, possibly truncated to the width of a narrower field
+	add("extrinsic-size-sum", got == ref.ExtrSize || got == ref.ExtrSize&0xFFFFFFFF || got == ref.ExtrSize&0xFFFF)
 	add("export-count", got == ref.ExportsCount)
 	add("gas-used", got == ref.GasUsed)
 	switch len(m) {
@@ -263,7 +257,7 @@ func c32CheckC(r *vlib.Run, c c32Case) {
 	// the field is a U32: a sum above 2^32-1 cannot be represented (and cannot occur in a package that respects
 	// the bundle size limit), so nothing is demanded there
 	if ref.ExtrSize <= 0xFFFFFFFF && uint64(l.ExtrinsicSize) != ref.ExtrSize {
-		r.Violation("work_package.C", "wrong-extrinsic-size", c32Diag(uint64(l.ExtrinsicSize), ref, "extrinsic-size"), fmt.Sprintf("%s: refine load extrinsic size %d, expected sum of lengths = %d", desc, l.ExtrinsicSize, ref.ExtrSize), c)
+		r.Violation("work_package.C", "wrong-extrinsic-size", c32Diag(uint64(l.ExtrinsicSize), ref, "extrinsic-size-sum"), fmt.Sprintf("%s: refine load extrinsic size %d, expected sum of lengths = %d", desc, l.ExtrinsicSize, ref.ExtrSize), c)
 	}
 	if uint64(l.Exports) != ref.ExportsCount {
 		r.Violation("work_package.C", "wrong-exports", c32Diag(uint64(l.Exports), ref, "export-count"), fmt.Sprintf("%s: refine load exports %d, expected w_e = %d", desc, l.Exports, ref.ExportsCount), c)
